@@ -1,6 +1,7 @@
 SPECIFICATION MCSpec
-CONSTANT Params <- FieldsParams
-CONSTANT MkCase <- FieldsCase
+CONSTANT Params <- SizedParams
+CONSTANT MkCase <- SizedCase
+CONSTANT SizedSpread = 9
 INVARIANT DesignAccepted
 INVARIANT DesignControlled
 INVARIANT Export
